@@ -291,11 +291,25 @@ func representable(src c03Source, typ string) string {
 			return e + " <= 9223372036854775807"
 		}
 		return e + " <= " + hi
-	case 'F': // float64(k), k int8
-		if strings.HasPrefix(typ, "uint") {
-			return "k >= 0"
+	case 'F': // float64(k), k int32 (float32(kk), kk int8 for the narrow source)
+		if src.narrow != "" {
+			if strings.HasPrefix(typ, "uint") {
+				return "kk >= 0"
+			}
+			return "true"
 		}
-		return "true"
+		klo, khi := lo, hi
+		switch typ {
+		case "int", "int64", "float64":
+			return "true"
+		case "uint", "uint64", "uint32":
+			return "k >= 0"
+		case "float32":
+			klo, khi = "-16777216", "16777216"
+		case "int32":
+			return "true"
+		}
+		return "vnd.And(k >= " + klo + ", k <= " + khi + ")"
 	}
 	return "true"
 }
@@ -353,7 +367,7 @@ func genC03(tier string, seed int64) (*Family, error) {
 	sources := []c03Source{
 		{"x", "\tx := vnd.Int64(\"x\")\n\tdc.Add(\"x\", x)\n", "x", "x", 'I', ""},
 		{"u", "\tu := vnd.Uint64(\"u\")\n\tdc.Add(\"u\", u)\n", "u", "u", 'U', ""},
-		{"fk", "\tk := vnd.Int8(\"k\")\n\tfk := float64(k)\n\tdc.Add(\"fk\", fk)\n", "fk", "fk", 'F', ""},
+		{"fk", "\tk := vnd.Int32(\"k\")\n\tfk := float64(k)\n\tdc.Add(\"fk\", fk)\n", "fk", "fk", 'F', ""},
 		{"lit", "", "5", "int64(5)", 'I', ""},
 		{"n8", "\tn8 := vnd.Int8(\"n8\")\n\tdc.Add(\"n8\", n8)\n", "n8", "n8", 'I', "int8"},
 		{"nu8", "\tnu8 := vnd.Uint8(\"nu8\")\n\tdc.Add(\"nu8\", nu8)\n", "nu8", "nu8", 'U', "uint8"},
@@ -378,9 +392,6 @@ func genC03(tier string, seed int64) (*Family, error) {
 				continue // quick: narrow sources into the 64-bit fields and every container
 			}
 			rep := representable(s, t.typ)
-			if s.id == "nf32" {
-				rep = strings.ReplaceAll(rep, "k >= 0", "kk >= 0")
-			}
 			name := "W_" + clean(t.rule) + "_" + s.id
 			want := t.typ + "(" + s.goExpr + ")"
 			src := fmt.Sprintf(`func %s() {
@@ -443,6 +454,8 @@ func genC03(tier string, seed int64) (*Family, error) {
 	}
 	// calls
 	b.WriteString(`
+type argObj struct{}
+
 type callRec struct {
 	a int8
 	b uint16
@@ -538,6 +551,42 @@ type callRec struct {
 	vnd.Assert(ok, "result type")
 	vnd.Assert(got == d.I64+d.P.A+(d.In.A+1)+11, "methods see their receiver and only the first result is used")
 	vnd.Assert(lastI == x, "the last call received the converted argument")
+	untouched(d, s, p, q, "")
+}
+`)
+	// every numeric parameter type x every source class
+	for _, pt := range []string{"int", "int8", "int16", "int32", "int64", "uint", "uint8", "uint16", "uint32", "uint64", "float32", "float64"} {
+		for _, src := range sources[:3] {
+			name := "P_" + pt + "_" + src.id
+			rep := representable(src, pt)
+			add(name, "call-param:"+pt, fmt.Sprintf("fn(%s) with parameter type %s", src.rule, pt), fmt.Sprintf(`func %s() {
+	d, s, p, q := newD()
+	dc := inject(d, p)
+	var got %s
+	n := 0
+	dc.Add("fn", func(a %s) int64 { got = a; n++; return 1 })
+	dc.Add("obj", &argObj{})
+%s	vnd.Assume(%s)
+	err, _ := exec(dc, %q)
+	vnd.Reach("executed")
+	vnd.Assert(err == nil, "the call succeeds")
+	vnd.Assert(n == 1, "called once")
+	vnd.Assert(got == %s(%s), "the argument arrives converted to the declared parameter type")
+	untouched(d, s, p, q, "")
+}
+`, name, pt, pt, src.decl, rep, " return fn("+src.rule+")", pt, src.goExpr))
+		}
+	}
+	add("C_local_then_injected", "shadow", "a name injected after a local of that name was assigned denotes the injected object", `func C_local_then_injected() {
+	d, s, p, q := newD()
+	dc := inject(d, p)
+	v := vnd.Int64("v")
+	dc.Add("inject", func() { dc.Add("late", v) })
+	err, res := exec(dc, " late = 5\n inject()\n return late")
+	vnd.Reach("executed")
+	vnd.Assert(err == nil, "the rule succeeds")
+	got, ok := res["r"].(int64)
+	vnd.Assert(ok && got == v, "once injected, the name refers to the injected object although a local of that name exists")
 	untouched(d, s, p, q, "")
 }
 `)
